@@ -36,7 +36,11 @@ func (d *driver) sqrtEvent(w emitter, k int, label string, v *big.Int) {
 }
 
 func (d *driver) pointEvent(w emitter, k int, label string, v *big.Int) {
-	for _, largest := range []bool{true, false} {
+	d.pointEventFlags(w, k, label, v, []bool{true, false})
+}
+
+func (d *driver) pointEventFlags(w emitter, k int, label string, v *big.Int, flags []bool) {
+	for _, largest := range flags {
 		x := fpFromBig(v)
 		before := x
 		p := bandersnatch.GetPointFromX(&x, largest)
@@ -106,6 +110,42 @@ func (d *driver) runSqrtCase(w emitter, k int, c *sqrtCase) {
 			dc := decCase{Fn: "SetBytesUncompressed", Cls: []string{"yhalf", "yhalf64", "yhalf128", "yhalf192", "ytop", "ypat"}[i%6]}
 			buf := (&driver{seed: d.seed + k}).decodeInput(&dc, i)
 			d.pointEvent(w, k, "yside/"+dc.Cls, new(big.Int).SetBytes(buf[:32]))
+		}
+	case "relatives":
+		// histories "x, then a value that a cheap digest of x's limbs cannot tell from x" - in the canonical digits and in the stored
+		// (Montgomery) words, for the recovery with each flag and for the square root: every answer must be the one for ITS input
+		rinv := new(big.Int).ModInverse(two256, modP)
+		form := func(l [4]uint64, stored bool) *big.Int {
+			v := bigOfWords(l)
+			if stored {
+				v.Mul(v, rinv).Mod(v, modP)
+			}
+			return v
+		}
+		for i := 0; i < c.N; i++ {
+			var base [4]uint64
+			for j := range base {
+				base[j] = rnd.big(60).Uint64() | 1
+			}
+			names, rels := limbRelatives(base, rnd)
+			if i%3 == 0 {
+				base = [4]uint64{}
+				names, rels = zeroRelatives(rnd)
+			}
+			for _, stored := range []bool{false, true} {
+				tag := "canon"
+				if stored {
+					tag = "stored"
+				}
+				for j := range rels {
+					for _, f := range []bool{true, false} {
+						d.pointEventFlags(w, k, "rel/base", form(base, stored), []bool{f})
+						d.pointEventFlags(w, k, "rel/"+tag+"/"+names[j], form(rels[j], stored), []bool{f})
+					}
+					d.sqrtEvent(w, k, "rel/base", form(base, stored))
+					d.sqrtEvent(w, k, "rel/"+tag+"/"+names[j], form(rels[j], stored))
+				}
+			}
 		}
 	case "point":
 		for i := 0; i < c.N; i++ {
